@@ -19,7 +19,7 @@ from ..core import Violation, h64, digest, state_digest, substream, np_stream
 from ..data import make_data
 from ..estimators import ALL, cls_of, tuple_size, SPEC, fit_args
 from ..histgen import gen_history, history_shrink_moves
-from ..machine import Machine
+from ..machine import Machine, same_outputs
 from . import c17
 
 ID = "C18"
@@ -267,11 +267,11 @@ class Oracle(object):
         a = c17._first_diff(live["state_before"], live["state_after"])
         raise Violation("pickle_preserves", "cls=%s,attr=%s" % (h.name, a),
                         "fitted state differs after pickle round trip (%s)" % ev.get("how"))
-      if live["before_out"] != live["after_out"]:
+      if not same_outputs(live["before_out"], live["after_out"], m.cov):
         self._maybe_blas(h, live)
         raise Violation("pickle_preserves", "cls=%s,outputs" % h.name,
                         "query outputs are not bit-identical after a pickle round trip")
-      if "fresh_out" in live and live["fresh_out"] != live["before_out"]:
+      if "fresh_out" in live and not same_outputs(live["before_out"], live["fresh_out"], m.cov):
         raise Violation("pickle_preserves", "cls=%s,outputs_fresh_process" % h.name,
                         "query outputs differ after unpickling in a fresh interpreter")
       self.checked += 1
